@@ -135,6 +135,7 @@ def run(prog: Program, roots=None, prop="C08") -> Results:
                     f"{k} uses `{norm(bad)}`: a reflective write would be invisible to the mutate-then-raise analysis")
     if prop == "C08":
         refusal_guards(prog, res)
+        fallback_handlers(prog, res, closure)
     res.tables.append(f"sa/tables/reviewed.py: {len(INFEASIBLE_PAIRS)} infeasible mutate-then-raise pairs (witness re-checked each run), "
                       f"{len(BENIGN_MUTATIONS)} benign text-preserving normalisations")
     res.assumptions = ["the final source.rebuild() is the emission step, not a rejection point (its failures belong to C20)",
@@ -159,6 +160,65 @@ def _origin_of(eng, bykey, root, exc, depth=0, seen=None):
                     if r:
                         return r
     return None
+
+
+# handlers in the edit closure that do not re-raise on every path: (function, caught classes) -> (count, why it is not a swallowed refusal)
+REVIEWED_FALLBACKS = {
+    ("_resolve_identifier", ("KeyError",)): (1, "a miss in one scope: the quoted spelling and then the next scope are tried; exhaustion raises ResolutionError"),
+    ("_resolve_npath_parent", ("KeyError",)): (1, "missing intermediate key: created when create_missing, else re-raised as KeyError"),
+    ("_resolve_target_set_from_expr.<_resolve_call_argument>", ("ValueError",)): (1, "an unusable call argument yields None; the caller's arm then raises the shape ValueError"),
+    ("_set_value_in_attrset", ("ValueError",)): (1, "path through an inherited binding: the handler either finds the inherited target or re-raises"),
+    ("_set_value_in_attrset.<_assign_through_identifier>", ("ResolutionError",)): (1, "reference cannot be resolved: False makes the caller overwrite the binding itself (R-C11-2 orders this)"),
+    ("function_call_scope", ("KeyError",)): (1, "formal without a supplied argument: simply not bound in the parameter scope"),
+}
+
+
+def fallback_handlers(prog: Program, res: Results, closure) -> None:
+    """R-C08-6: who may swallow an exception in the edit closure"""
+    from sa.dtable import outcome
+    from sa.util import handler_names
+    r = res.rule("R-C08-6", "refusals stay loud: in the set/rm and item-assignment closure an `except` clause that does not re-raise "
+                 "on every path exists only at the reviewed fallback sites; any other one could turn a rejected edit into a silent "
+                 "success on a substitute target", floor=6)
+    keys = set(closure)
+    for k in list(keys):
+        f = prog.funcs.get(k)
+        stack = [f] if f is not None else []
+        while stack:
+            g = stack.pop()
+            for h in g.nested.values():
+                keys.add(h.key)
+                stack.append(h)
+    # helpers called only through a name the effect engine inlines are reached via the module scan below
+    for f in prog.all_functions():
+        if f.module == "nix_manipulator/cli/manipulations.py":
+            keys.add(f.key)
+    seen: dict = {}
+    for k in sorted(keys):
+        f = prog.funcs.get(k)
+        if f is None or f.name in ("__repr__",) or f.module.endswith(("color.py", "cli/main.py")):
+            continue
+        for n in walk_no_nested(f.node):
+            if not isinstance(n, ast.Try):
+                continue
+            for h in n.handlers:
+                r.instances += 1
+                o = outcome(h.body, {})
+                always = bool(o.paths) and all(p_ and p_[-1].startswith("raise") for p_ in o.paths)
+                if always:
+                    r.ob(True, {"site": k, "catches": handler_names(h), "kind": "converts and re-raises"})
+                    continue
+                key = (k, tuple(sorted(str(x) for x in handler_names(h))))
+                seen[key] = seen.get(key, 0) + 1
+                allowed, why = REVIEWED_FALLBACKS.get(key, (0, None))
+                ok = seen[key] <= allowed
+                r.ob(ok, {"site": k, "catches": list(key[1]), "kind": "fallback", "reviewed": why})
+                if not ok:
+                    res.add("R-C08-6", (k, "unreviewed fallback handler", ",".join(key[1])), f.loc(h),
+                            f"{k}: `except {', '.join(key[1]) or 'BaseException'}` around `{norm(n.body[0])[:60]}` does not re-raise on every path: "
+                            f"a refusal raised inside (unsupported shape, raw document, malformed path) can be replaced by a fallback "
+                            f"and the edit proceeds on something else instead of failing loudly")
+    res.tables.append(f"sa/rules/c08.py:REVIEWED_FALLBACKS ({len(REVIEWED_FALLBACKS)} handlers)")
 
 
 def refusal_guards(prog: Program, res: Results) -> None:
